@@ -424,6 +424,26 @@ end
 /-- `json.MarshalIndent(v, "", "  ")`; numbers: literal text verbatim (Go: `json.Number`) -/
 def marshalIndent (v : JVal) : Bytes := (encVal 0 v []).reverse
 
+mutual
+/-- how many brackets are open around the innermost value (an empty container counts): the highest
+    value `pushParseState` reaches when the scanner runs over the compact text of `v` -/
+def nesting : JVal → Nat
+  | .arr xs => nestingItems xs + 1
+  | .obj ms => nestingMembers ms + 1
+  | _ => 0
+def nestingItems : List JVal → Nat
+  | [] => 0
+  | x :: xs => max (nesting x) (nestingItems xs)
+def nestingMembers : List (Bytes × JVal) → Nat
+  | [] => 0
+  | (_, v) :: ms => max (nesting v) (nestingMembers ms)
+end
+
+/-- `json.MarshalIndent` fails where `json.Marshal` does not: its indent pass (indent.go
+    `appendIndent`) runs the decoder's scanner over the compact text, and `pushParseState` answers
+    "exceeded max depth" at the first bracket opened inside `maxNestingDepth` open ones. -/
+def tooDeep (v : JVal) : Bool := maxNestingDepth < nesting v
+
 /-! ## Kernel-checked sanity examples -/
 
 instance : BEq DecodeRes where
